@@ -36,6 +36,7 @@ mod outline;
 mod getters;
 mod builders;
 mod macros;
+mod wakers;
 mod retry_options;
 
 fn main() {
@@ -62,6 +63,7 @@ fn main() {
         "getters" => getters::run(&lines),
         "builders" => builders::run(&lines),
         "macros" => macros::run(),
+        "wakers" => wakers::run(),
         m => panic!("unknown mode {m}"),
     }
 }
@@ -70,6 +72,8 @@ fn main() {
 #[derive(Clone, Debug, Default)]
 pub struct Rec {
     pub log: Arc<Mutex<Vec<String>>>,
+    /// what was written through `writer::Arbitrary` (the summary text)
+    pub texts: Arc<Mutex<Vec<String>>>,
 }
 
 impl<Wl: World> Writer<Wl> for Rec {
@@ -87,6 +91,7 @@ impl<Wl: World> Writer<Wl> for Rec {
 impl<Wl: World> writer::Arbitrary<Wl, String> for Rec {
     async fn write(&mut self, val: String) {
         self.log.lock().unwrap().push(format!("write:{}", val.len()));
+        self.texts.lock().unwrap().push(val);
     }
 }
 
